@@ -61,6 +61,33 @@ Proof.
       rewrite Hh. apply IH. cbn in Hn |- *. lia.
 Qed.
 
+Lemma fill_blank_eq c1 c2 r :
+  fill_blank (c1 :: c2 :: r) = if (c1 =? nl)%N && (c2 =? nl)%N then nl :: 32%N :: star :: fill_blank (c2 :: r) else c1 :: fill_blank (c2 :: r).
+Proof. reflexivity. Qed.
+
+Lemma fill_blank_head s : head_is_slash (fill_blank s) = head_is_slash s.
+Proof.
+  destruct s as [|c1 [|c2 r]]; try reflexivity. rewrite fill_blank_eq.
+  destruct ((c1 =? nl)%N && (c2 =? nl)%N) eqn:E; [|reflexivity].
+  apply andb_true_iff in E as [E _]. apply N.eqb_eq in E. subst c1. reflexivity.
+Qed.
+
+(* filling empty lines adds no terminator *)
+Lemma fill_blank_closes : forall n s, length s <= n -> closes (fill_blank s) = closes s.
+Proof.
+  induction n as [|n IH]; intros s Hn.
+  - destruct s; [reflexivity | cbn in Hn; lia].
+  - destruct s as [|c1 [|c2 r]]; try reflexivity. rewrite fill_blank_eq.
+    destruct ((c1 =? nl)%N && (c2 =? nl)%N) eqn:E.
+    + apply andb_true_iff in E as [E1 E2]. apply N.eqb_eq in E1, E2. subst c1 c2.
+      rewrite closes_cons. assert (H1 : (nl =? star)%N = false) by reflexivity. rewrite H1. cbn [andb].
+      rewrite closes_cons. assert (H2 : (32 =? star)%N = false) by reflexivity. rewrite H2. cbn [andb].
+      rewrite closes_cons, fill_blank_head. cbn [head_is_slash]. assert (H3 : (nl =? fslash)%N = false) by reflexivity. rewrite H3, andb_false_r.
+      rewrite (IH (nl :: r)) by (cbn in Hn |- *; lia).
+      rewrite (closes_cons nl (nl :: r)). rewrite H1. reflexivity.
+    + rewrite closes_cons, fill_blank_head, (IH (c2 :: r)) by (cbn in Hn |- *; lia). rewrite (closes_cons c1 (c2 :: r)). reflexivity.
+Qed.
+
 Lemma escape_doc_closes s : closes (escape_doc s) = 0.
 Proof.
   unfold escape_doc. pose proof (esc_close_closes (length s) s (le_n _)) as H.
@@ -113,9 +140,9 @@ Proof.
 Qed.
 
 (* the block: exactly one terminator, and it is the one that ends the block *)
-Theorem parse_docs_one_close ls : ls <> [] -> closes (parse_docs ls) = 1.
+Lemma parse_docs_raw_one_close ls : ls <> [] -> closes (parse_docs_raw ls) = 1.
 Proof.
-  intros Hne. unfold parse_docs. destruct ls as [|l1 [|l2 ls]]; [contradiction| |].
+  intros Hne. unfold parse_docs_raw. destruct ls as [|l1 [|l2 ls]]; [contradiction| |].
   - cbn [map]. destruct (existsb (N.eqb nl) (escape_doc l1)).
     + rewrite closes_app_head by apply head_escape_app.
       rewrite (closes_app_head (escape_doc l1)) by reflexivity.
@@ -135,10 +162,10 @@ Lemma starts_with_app p s : starts_with p (p ++ s) = true.
 Proof. induction p as [|c p IH]; cbn [starts_with app]; [destruct s; reflexivity|]. rewrite N.eqb_refl. exact IH. Qed.
 
 (* it begins with the JSDoc opener and ends with the terminator and a newline *)
-Theorem parse_docs_shape ls : ls <> [] ->
-  starts_with (lit "/**") (parse_docs ls) = true /\ exists body, parse_docs ls = body ++ lit "*/" ++ [nl].
+Lemma parse_docs_raw_shape ls : ls <> [] ->
+  starts_with (lit "/**") (parse_docs_raw ls) = true /\ exists body, parse_docs_raw ls = body ++ lit "*/" ++ [nl].
 Proof.
-  intros Hne. unfold parse_docs. destruct ls as [|l1 [|l2 ls]]; [contradiction| |].
+  intros Hne. unfold parse_docs_raw. destruct ls as [|l1 [|l2 ls]]; [contradiction| |].
   - cbn [map]. destruct (existsb (N.eqb nl) (escape_doc l1)); (split; [apply starts_with_app|]).
     + exists (lit "/**" ++ escape_doc l1). rewrite <- app_assoc. reflexivity.
     + exists (lit "/**" ++ [nl] ++ doc_line (escape_doc l1) ++ [nl] ++ [32%N]). rewrite <- !app_assoc. reflexivity.
@@ -146,6 +173,71 @@ Proof.
     exists (lit "/**" ++ [nl] ++ join [nl] (map doc_line (map escape_doc (l1 :: l2 :: ls))) ++ [nl] ++ [32%N]).
     rewrite <- !app_assoc. reflexivity.
 Qed.
+
+
+(* ---- the blank-line fill over the whole block ---- *)
+Theorem parse_docs_one_close ls : ls <> [] -> closes (parse_docs ls) = 1.
+Proof. intros Hne. unfold parse_docs. rewrite (fill_blank_closes _ _ (le_n _)). apply parse_docs_raw_one_close, Hne. Qed.
+
+Lemma fill_blank_cons c s : (c =? nl)%N = false -> fill_blank (c :: s) = c :: fill_blank s.
+Proof. intros H. destruct s as [|d r]; [reflexivity|]. rewrite fill_blank_eq, H. reflexivity. Qed.
+
+Definition head_is_nl (s : str) : bool := match s with c :: _ => (c =? nl)%N | [] => false end.
+
+Lemma fill_blank_app a : forall b, head_is_nl b = false -> fill_blank (a ++ b) = fill_blank a ++ fill_blank b.
+Proof.
+  induction a as [|c1 a IH]; intros b Hb; [reflexivity|].
+  destruct a as [|c2 r].
+  - cbn [app]. destruct b as [|d b']; [reflexivity|]. cbn [head_is_nl] in Hb. rewrite fill_blank_eq, Hb, andb_false_r. reflexivity.
+  - change ((c1 :: c2 :: r) ++ b) with (c1 :: c2 :: (r ++ b)). rewrite !fill_blank_eq.
+    change (c2 :: r ++ b) with ((c2 :: r) ++ b). rewrite (IH b Hb).
+    destruct ((c1 =? nl)%N && (c2 =? nl)%N); reflexivity.
+Qed.
+
+Theorem parse_docs_shape ls : ls <> [] ->
+  starts_with (lit "/**") (parse_docs ls) = true /\ exists body, parse_docs ls = body ++ lit "*/" ++ [nl].
+Proof.
+  intros Hne. destruct (parse_docs_raw_shape ls Hne) as [Hs [body Hb]]. unfold parse_docs. split.
+  - apply starts_with_spec in Hs as [r Hr]. rewrite Hr. apply starts_with_spec. exists (fill_blank r).
+    change (lit "/**" ++ r) with (fslash :: star :: star :: r). rewrite !fill_blank_cons by reflexivity. reflexivity.
+  - rewrite Hb. exists (fill_blank body). rewrite fill_blank_app by reflexivity. reflexivity.
+Qed.
+
+(* an empty line: a newline directly followed by a newline *)
+Fixpoint has_blank (s : str) : bool :=
+  match s with
+  | c1 :: ((c2 :: _) as t) => ((c1 =? nl)%N && (c2 =? nl)%N) || has_blank t
+  | _ => false
+  end.
+
+Lemma has_blank_cons c s : has_blank (c :: s) = ((c =? nl)%N && head_is_nl s) || has_blank s.
+Proof. destruct s as [|d r]; cbn [has_blank head_is_nl]; [rewrite andb_false_r; reflexivity|reflexivity]. Qed.
+
+Lemma fill_blank_head_nl s : head_is_nl (fill_blank s) = head_is_nl s.
+Proof.
+  destruct s as [|c1 [|c2 r]]; try reflexivity. rewrite fill_blank_eq.
+  destruct ((c1 =? nl)%N && (c2 =? nl)%N) eqn:E; [|reflexivity].
+  apply andb_true_iff in E as [E _]. cbn [head_is_nl]. rewrite E. reflexivity.
+Qed.
+
+Lemma fill_blank_no_blank : forall n s, length s <= n -> has_blank (fill_blank s) = false.
+Proof.
+  induction n as [|n IH]; intros s Hn.
+  - destruct s; [reflexivity | cbn in Hn; lia].
+  - destruct s as [|c1 [|c2 r]]; try reflexivity. rewrite fill_blank_eq.
+    destruct ((c1 =? nl)%N && (c2 =? nl)%N) eqn:E.
+    + rewrite has_blank_cons. cbn [head_is_nl]. assert (H1 : (32 =? nl)%N = false) by reflexivity. rewrite H1, andb_false_r. cbn [orb].
+      rewrite has_blank_cons. cbn [head_is_nl]. rewrite H1. cbn [andb orb].
+      rewrite has_blank_cons. assert (H2 : (star =? nl)%N = false) by reflexivity. rewrite H2. cbn [andb orb].
+      apply IH. cbn in Hn |- *. lia.
+    + rewrite has_blank_cons, fill_blank_head_nl. cbn [head_is_nl]. rewrite E. cbn [orb]. apply IH. cbn in Hn |- *. lia.
+Qed.
+
+(* the documentation block never contains an empty line: in a file shared by several declarations, where blocks are
+   separated by an empty line, a block of documentation plus declaration stays one block *)
+Theorem parse_docs_no_blank ls : has_blank (parse_docs ls) = false.
+Proof. unfold parse_docs. apply (fill_blank_no_blank _ _ (le_n _)). Qed.
+
 
 (* no documentation at all: nothing is emitted *)
 Theorem parse_docs_nil : parse_docs [] = [].
